@@ -24,7 +24,11 @@ ROWS = {1: [[0.1], [0.2], [0.3], [0.4]], 2: [[0.0, 0.0], [0.0, 1.0], [1.0, 0.0],
         4: [[0.0, 0.25], [-0.0, 0.25], [0.5, 0.25], [0.0, 0.5]],
         # universe 5: five columns, every symbol with its own first coordinate (a pre-filter on one column would tell them apart)
         5: [[0.1, 0.5, 0.5, 0.5, 0.5], [0.2, 0.5, 0.5, 0.5, 0.5], [0.3, 0.5, 0.5, 0.5, 0.5], [0.4, 0.5, 0.5, 0.5, 0.5]]}
-NCOLS = {1: 1, 2: 2, 3: 2, 4: 2, 5: 5}
+ROWS[6] = [[0.3, 0.33, 0.36, 0.39, 0.42, 0.45, 0.48, 0.51, 0.54, 0.5700000000000001], [0.44, 0.47000000000000003, 0.5, 0.53, 0.56, 0.59, 0.62, 0.65, 0.68, 0.71],
+           [0.65, 0.68, 0.71, 0.74, 0.77, 0.8, 0.8300000000000001, 0.86, 0.89, 0.92], [0.79, 0.8200000000000001, 0.85, 0.88, 0.91, 0.9400000000000001, 0.97, 0.03, 0.06, 0.09]]
+# universe 6: ten columns of hundredths (their sums are inexact and depend on the order of addition); used with a generator that returns
+# its batch in another memory layout (Fortran order) than the C-ordered history
+NCOLS = {1: 1, 2: 2, 3: 2, 4: 2, 5: 5, 6: 10}
 SAME = {4: {1: 0}}   # symbol -> the symbol it is numerically equal to
 
 
@@ -56,7 +60,8 @@ def _make_sampler(batch_size, passes, base="base"):
                 raise NeedMore(int(batch_size))
             rows = self.script[self.pos:self.pos + batch_size]
             self.pos += batch_size
-            return np.array([self.rows[s] for s in rows], dtype=float).reshape(batch_size, NCOLS[self.cols])
+            out = np.array([self.rows[s] for s in rows], dtype=float).reshape(batch_size, NCOLS[self.cols])
+            return np.asfortranarray(out) if self.cols == 6 else out
 
     s = Scripted(batch_size=batch_size, random_state=0, max_deduplication_passes=passes)
     return s
@@ -268,6 +273,10 @@ def main(ctx):
     for pad in (9000, 10001, 12345) if ctx.quick else (4095, 9000, 10001, 12345, 20000):
         for first in itertools.product(range(4), repeat=2):
             cells.append({"cols": 5, "hist": "h1h2", "B": 2, "P": 2, "first": list(first), "pad": pad})
+    for hname in ("h1", "h1h2", "h1h1h2"):
+        for B, P in ((1, 2), (2, 2), (3, 2), (4, 1)):
+            for first in itertools.product(range(4), repeat=min(B, 3)):
+                cells.append({"cols": 6, "hist": hname, "B": B, "P": P, "first": list(first) + [3] * (B - min(B, 3))})
     for cols in (1, 2):
         for hname, alt in (("h1", "h2only"), ("h1h2", "h1"), ("h2only", "h1h1h2")):
             for B, P in ((1, 2), (2, 2), (3, 1)):
